@@ -366,6 +366,38 @@ pub fn run(h: &H) {
                     exercise(h, &mut ctx, &def, &mut rng, "proj");
                 });
             }
+            8 if (idx / 10) % 3 == 0 => {
+                // stack programs: enough pushes for the depth checks to pass, then sub-commands
+                // with integer arguments of any size and sign, run in both directions
+                let ints = ["0", "1", "2", "3", "4", "5", "-1", "-2", "-3", "-5", "7", "-7", "1e18", "-1e18", "9.3e18", "-9.3e18", "1e19", "1e300", "-1e300", "-1e299", "4294967296", "2147483648", "-2147483649", "2.5", "nan", "inf"];
+                let mut steps: Vec<String> = Vec::new();
+                for _ in 0..1 + rng.below(4) {
+                    let k = 1 + rng.below(4);
+                    let args: Vec<String> = (0..k).map(|_| (1 + rng.below(4)).to_string()).collect();
+                    steps.push(format!("stack push={}", args.join(",")));
+                }
+                for _ in 0..1 + rng.below(3) {
+                    let (a, b) = (rng.pick(&ints).to_string(), rng.pick(&ints).to_string());
+                    steps.push(match rng.below(9) {
+                        0 | 1 => format!("stack roll={a},{b}"),
+                        2 | 3 => format!("stack unroll={a},{b}"),
+                        4 => "stack swap".to_string(),
+                        5 => format!("stack flip={}", rng.pick(&["1", "1,2", "4,3,2,1", "1,1", "0", "5"])),
+                        6 => format!("stack pop={}", rng.pick(&["1", "1,2", "4,3,2,1", "1,1,1,1,1,1,1,1,1"])),
+                        7 => "stack drop".to_string(),
+                        _ => format!("stack roll={a}"),
+                    });
+                }
+                if rng.chance(0.5) {
+                    steps.push("stack pop=1,2".into());
+                }
+                let def = steps.join(" | ");
+                h.distinct(hash_str(&def));
+                h.guard(idx, &format!("stack program {def:?}"), || {
+                    let mut ctx = Minimal::new();
+                    exercise(h, &mut ctx, &def, &mut rng, "stack-program");
+                });
+            }
             8 => {
                 // valid operators, hostile coordinates only
                 let def = rng.pick(&valid).clone();
